@@ -465,6 +465,9 @@ func ruleOwnGoroutine(c *Ctx, r *R, op ownedParam, key string, uses []ownUse) {
 				bound[mc] = b
 			}
 		}
+		if onlyMeasures(mc, bound[mc]) {
+			continue // a function literal that only asks for len(in) (the last-one-out test) does not use the streams
+		}
 		users = append(users, mc)
 	}
 	if len(users) != 1 {
@@ -800,4 +803,49 @@ func isLocalHelperClosure(mc *ssa.MakeClosure) bool {
 		}
 	}
 	return called
+}
+
+// onlyMeasures: inside the closure the captured value bound to b is used only as the operand of len / cap.
+func onlyMeasures(mc *ssa.MakeClosure, b ssa.Value) bool {
+	if b == nil {
+		return false
+	}
+	f := mc.Fn.(*ssa.Function)
+	idx := -1
+	for i, x := range mc.Bindings {
+		if x == b {
+			idx = i
+		}
+	}
+	if idx < 0 || idx >= len(f.FreeVars) {
+		return false
+	}
+	fv := f.FreeVars[idx]
+	okAll := true
+	var check func(v ssa.Value)
+	check = func(v ssa.Value) {
+		if v.Referrers() == nil {
+			return
+		}
+		for _, ref := range *v.Referrers() {
+			switch x := ref.(type) {
+			case *ssa.DebugRef:
+			case *ssa.UnOp:
+				if x.Op == token.MUL {
+					check(x)
+				} else {
+					okAll = false
+				}
+			case *ssa.Call:
+				bi, ok := x.Call.Value.(*ssa.Builtin)
+				if !ok || (bi.Name() != "len" && bi.Name() != "cap") {
+					okAll = false
+				}
+			default:
+				okAll = false
+			}
+		}
+	}
+	check(fv)
+	return okAll
 }
